@@ -1,9 +1,115 @@
 import Driver.Util
-open Lean
+import Torf.Model.Geometry
+import Torf.Spec.Geometry
+import Torf.Model.Stream
+open Lean Torf
 namespace Driver.C11
+open Torf.Geometry (Err Res)
 
-/-- ops of property C11: `c11.<name>` -/
-def handle (op : String) (_j : Json) : Except String Json :=
-  throw s!"unknown op {op}"
+def errJson : Err → Json
+  | .value => jstr "value"
+  | .internal t => jstr s!"internal:{t}"
+
+def resJson (f : α → Json) : Res α → Json
+  | .ok a => jobj [("ok", f a)]
+  | .error e => jobj [("err", errJson e)]
+
+def pairJson (p : Int × Int) : Json := jints [p.1, p.2]
+
+def noEmpty (sizes : List Nat) : Bool := sizes.all (· > 0)
+
+def getOptStr (j : Json) (k : String) : Option String := (j.getObjValAs? String k).toOption
+
+def returnedJson : Geometry.Returned → Json
+  | .torrentFile j => jobj [("kind", "torrentFile"), ("j", jnat j)]
+  | .joined b j => jobj [("kind", "joined"), ("base", jstr b), ("j", jnat j)]
+  | .contentPath p => jobj [("kind", "contentPath"), ("p", jstr p)]
+
+/-- stored hashes of a layout: `H` = identity on pieces (injective, like SHA-1 is assumed to
+    be); `nstored` of them are present, entry `bad` (if any) is wrong -/
+def storedOf (L : Nat) (files : List (List Nat)) (nstored : Nat) (bad : Option Nat) : List (List Nat) :=
+  ((chunks L files.flatten).take nstored).zipIdx.map fun (p, k) => if some k == bad then [] else p
+
+def answer (out : Json × Json × Bool) : Json :=
+  jobj [("model", out.1), ("spec", out.2.1), ("hyp", jbool out.2.2)]
+
+/-- one query against a layout -/
+def query (L : Nat) (sizes : List Nat) (stored : List (List Nat)) (q : Json) : Except String Json := do
+  let m ← getStr q "m"
+  let files := mkFiles sizes
+  let n := sizes.length
+  let ne := noEmpty sizes
+  let hL := decide (L > 0)
+  match m with
+  | "max_piece_index" =>
+    return answer (jint (Geometry.maxPieceIndex sizes L), jint (GeomSpec.maxPieceIndex sizes L), hL)
+  | "file_position" =>
+    let j ← getNat q "j"
+    return answer (resJson jnat (Geometry.getFilePosition sizes j), resJson jnat (GeomSpec.filePosition sizes j), hL)
+  | "file_at_position" =>
+    let p ← getInt q "p"
+    return answer (resJson jnat (Geometry.getFileAtPosition sizes p), resJson jnat (GeomSpec.fileAtPosition sizes p), hL)
+  | "byte_range" =>
+    let a ← getInt q "a"
+    let b ← getInt q "b"
+    return answer (resJson jnats (Geometry.getFilesAtByteRange sizes a b),
+                   resJson jnats (.ok (GeomSpec.filesAtByteRange sizes a b)), hL && ne && decide (a ≤ b))
+  | "byte_range_of_file" =>
+    let j ← getNat q "j"
+    return answer (resJson pairJson (Geometry.getByteRangeOfFile sizes j), resJson pairJson (GeomSpec.byteRangeOfFile sizes j), hL)
+  | "files_at_piece" =>
+    let i ← getInt q "i"
+    return answer (resJson jnats (Geometry.getFilesAtPieceIndex sizes L i), resJson jnats (GeomSpec.filesAtPieceIndex sizes L i), hL && ne)
+  | "piece_indexes" =>
+    let j ← getNat q "j"
+    let ex ← getBool q "excl"
+    let hyp := hL && (if ex then ne else decide (j ≥ n) || decide (GeomSpec.size sizes j > 0))
+    return answer (resJson jints (Geometry.getPieceIndexesOfFile sizes L j ex), resJson jints (GeomSpec.pieceIndexesOfFile sizes L j ex), hyp)
+  | "abs" =>
+    let j ← getNat q "j"
+    let rels ← getInts q "rels"
+    let hyp := hL && (decide (j ≥ n) || decide (GeomSpec.size sizes j > 0))
+    return answer (resJson jints (Geometry.getAbsolutePieceIndexes sizes L j rels), resJson jints (GeomSpec.absolutePieceIndexes sizes L j rels), hyp)
+  | "rel" =>
+    let j ← getNat q "j"
+    let rels ← getInts q "rels"
+    let sz := GeomSpec.size sizes j
+    let p := GeomSpec.pos sizes j
+    let hyp := hL && decide (j < n) && decide (sz > 0) && decide ((p % L + sz - 1) / L = (sz - 1) / L)
+    return answer (resJson jints (.ok (Geometry.getRelativePieceIndexes L sz rels)), resJson jints (GeomSpec.relativePieceIndexes sizes L j rels), hyp)
+  | "get_piece" =>
+    let i ← getInt q "i"
+    let hp ← getBool q "hasPath"
+    let spec : Res (List Nat) := if hp then GeomSpec.piece files L i else
+      (match GeomSpec.piece files L i with | .ok _ => .error .value | .error e => .error e)
+    return answer (resJson pieceJson (Geometry.getPiece files L hp i), resJson pieceJson spec, hL && ne)
+  | "verify" =>
+    let i ← getInt q "i"
+    let hp ← getBool q "hasPath"
+    let spec : Res Bool := if hp then GeomSpec.verifyPiece id stored files L i else .error .value
+    return answer (resJson jbool (Geometry.verifyPiece id stored files L hp i), resJson jbool spec, hL && ne)
+  | "returned" =>
+    let j ← getNat q "j"
+    let single ← getBool q "single"
+    let cp := Geometry.contentPath (getOptStr q "arg") (getOptStr q "cls") (getOptStr q "tpath")
+    let r := returnedJson (Geometry.returned single cp j)
+    return answer (r, r, true)
+  | _ => throw s!"unknown method {m}"
+
+/-- op `c11.layout` : {L, sizes, nstored, bad?, queries:[…]} ↦ {res:[{model, spec, hyp}…]} -/
+def layout (j : Json) : Except String Json := do
+  let L ← getNat j "L"
+  let sizes ← getNats j "sizes"
+  let qs ← getArr j "queries"
+  let nstored := (getOptNat j "nstored").getD 0
+  let stored := storedOf L (mkFiles sizes) nstored (getOptNat j "bad")
+  let res ← qs.mapM (query L sizes stored)
+  return jobj [("res", jarr res), ("npieces", jnat (nPieces L sizes.sum)),
+               ("iter", jarr ((Stream.iterPieces L (mkFiles sizes)).map pieceJson))]
+
+def handle (op : String) (j : Json) : Except String Json :=
+  match op with
+  | "c11.layout" => layout j
+  | _ => throw s!"unknown op {op}"
 
 end Driver.C11
